@@ -167,3 +167,13 @@ Example C11_nonvacuous :
     (api_decode (B "[{""op"":""add"",""path"":""/a"",""value"":null,""x"":1},{""path"":""/b"",""op"":""copy"",""from"":""/a"",""from"":""/c""}]"))
   = Some ([KAdd; KCopy], [Err EMissing; Ok (B "/c")]).
 Proof. vm_compute. reflexivity. Qed.
+
+(* ---- the accessors decode op / path / from with unquoteBytes: as re-translated from decode.go on every run it is
+   the model's unquote on every string body the scanner accepts (UnquoteTie.v) ---- *)
+From JP Require Import Strings Codec.
+From JP Require UnquoteTie.
+From JP.gen Require UnquoteGen.
+Theorem C11_go_string_decoder_is_unquote : forall body, sbody body ->
+  UnquoteGen.unquote_full_gen ([x22] ++ body ++ [x22]) = UnquoteGen.UOk (unquote body).
+Proof. exact UnquoteTie.unquote_full_gen_is_unquote. Qed.
+Print Assumptions C11_go_string_decoder_is_unquote.
